@@ -792,10 +792,11 @@ class Foreign(EngineBase):
         u = {"evals": 0, "keys": set(), "stats": {}, "violations": [],
              "harness_errors": [], "timeouts": 0, "digest_checks": 0}
         rng = self.rng("fr", unit_seed)
-        r = W.execute_forked({"special": "frontend", "method": "frontend",
-                              "pidkind": "ordinary", "state": "live"})
+        fplan = {"special": "frontend", "method": "frontend",
+                 "pidkind": "ordinary", "state": "live", "faults": []}
+        r = W.execute_forked(fplan)
         u["evals"] += 1
-        self._absorb(u, {"method": "frontend"}, r, ("frontend",))
+        self._absorb(u, fplan, r, ("frontend",))
         combos = [("ordinary", "live", False), ("ordinary", "zombie", False),
                   ("zero", "live", False), ("low", "live", False),
                   ("ordinary", "live", True)]
